@@ -3,7 +3,7 @@ import torch
 from hypothesis import strategies as st
 
 from ..core import Sub
-from ..gens import OPTIONS, build_derivative, build_primary, build_scenario, hedge_list, scenario, seed_s, simulate
+from ..gens import OPTIONS, STOCKS, build_derivative, build_primary, build_scenario, hedge_list, scenario, seed_s, simulate
 
 PROPERTY_ID = "C02"
 ASSUMPTIONS = [
@@ -19,9 +19,13 @@ VOL = {"volatility", "variance"}
 @st.composite
 def c02_case(draw):
     sc = draw(scenario(min_steps=3, max_steps=9, max_paths=5, long_horizon=40))
-    if sc["deriv"]["type"] not in OPTIONS and sc["model"] in ("linear", "mlp", "recurrent") and draw(st.integers(0, 2)) == 0:
-        # features of the option family asked of a contract outside it: used where the library offers them (probed at run time)
-        sc["probe"] = draw(st.lists(st.sampled_from(["moneyness", "log_moneyness", "max_moneyness", "time_to_maturity"]), min_size=1, max_size=2, unique=True))
+    if sc["model"] in ("linear", "mlp", "recurrent") and draw(st.integers(0, 2)) == 0:
+        # features asked of a contract / an underlier outside the family that documents them (option features of a variance swap,
+        # the volatility of an interest rate): used wherever the library offers them (probed at run time)
+        pool = (["moneyness", "log_moneyness", "max_moneyness", "time_to_maturity"] if sc["deriv"]["type"] not in OPTIONS else []) + \
+            (["volatility", "variance"] if sc["ul"]["type"] not in STOCKS else [])
+        if pool:
+            sc["probe"] = draw(st.lists(st.sampled_from(pool), min_size=1, max_size=2, unique=True))
     if sc["ul"]["type"] == "VasicekRate":
         # logs of a possibly negative rate are NaN from the start; keep the comparison meaningful
         sc["inputs"] = [f for f in sc["inputs"] if "log" not in f] or ["underlier_spot"]
